@@ -217,6 +217,84 @@ struct ChoiceStub {
     cipher: u8,
     tag: &'static str,
 }
+
+/// What the two built-in resolvers provide: for every DH / hash / cipher choice the resolver answers Some exactly
+/// for the documented set (DefaultResolver: 25519, P256, all four hashes, all three ciphers; RingResolver: no DH,
+/// SHA256 / SHA512, AESGCM / ChaChaPoly), and what it hands out IS the named primitive: its name() is the
+/// choice's name and one known-answer computation equals the reference implementation of that primitive.
+pub fn builtin_table(ctx: &Ctx) {
+    use snow::resolvers::{DefaultResolver, RingResolver};
+    let resolvers: [(&str, Box<dyn CryptoResolver>, bool); 2] = [("DefaultResolver", Box::new(DefaultResolver), false), ("RingResolver", Box::new(RingResolver), true)];
+    for (rname, r, is_ring) in &resolvers {
+        let bad = |what: String| ctx.violation("a built-in resolver hands out something else than the named primitive (or nothing although it documents it, or something although it does not)", format!("{rname}: {what}"), json!({"kind": "builtin"}));
+        for (choice, alg, documented) in [(DHChoice::Curve25519, Some(DhAlg::X25519), !is_ring), (DHChoice::P256, Some(DhAlg::P256), !is_ring), (DHChoice::Curve448, None, false)] {
+            ctx.add(&ctx.evaluations, 1);
+            match (r.resolve_dh(&choice), documented) {
+                (None, false) => {},
+                (None, true) => bad(format!("no DH for {choice:?}")),
+                (Some(_), false) => bad(format!("a DH for {choice:?}")),
+                (Some(mut d), true) => {
+                    let alg = alg.unwrap();
+                    let sk = crate::exec::key_bytes(1);
+                    d.set(&sk);
+                    let peer = alg.pubkey(&crate::exec::key_bytes(2)).unwrap();
+                    let mut out = vec![0u8; 64];
+                    let ok = d.name() == alg.name() && d.pub_len() == alg.publen() && Some(d.pubkey().to_vec()) == alg.pubkey(&sk) && d.dh(&peer, &mut out).is_ok() && alg.dh_noise(&sk, &peer).map_or(false, |want| out[..want.len()] == want[..]);
+                    if !ok {
+                        bad(format!("the DH object for {choice:?} is named {:?} and does not compute {}", d.name(), alg.name()));
+                    }
+                    ctx.add(&ctx.nontrivial, 1);
+                },
+            }
+        }
+        for (choice, alg) in [(HashChoice::SHA256, HashAlg::Sha256), (HashChoice::SHA512, HashAlg::Sha512), (HashChoice::Blake2s, HashAlg::Blake2s), (HashChoice::Blake2b, HashAlg::Blake2b)] {
+            ctx.add(&ctx.evaluations, 1);
+            let documented = !is_ring || matches!(alg, HashAlg::Sha256 | HashAlg::Sha512);
+            match (r.resolve_hash(&choice), documented) {
+                (None, false) => {},
+                (None, true) => bad(format!("no hash for {choice:?}")),
+                (Some(_), false) => bad(format!("a hash for {choice:?}")),
+                (Some(mut h), true) => {
+                    let mut out = vec![0u8; 64];
+                    h.reset();
+                    h.input(b"built-in resolver table");
+                    h.result(&mut out);
+                    let want = alg.hash(&[b"built-in resolver table"]);
+                    if h.name() != alg.name() || h.hash_len() != alg.hashlen() || h.block_len() != alg.blocklen() || out[..want.len()] != want[..] {
+                        bad(format!("the hash object for {choice:?} is named {:?} and does not compute {}", h.name(), alg.name()));
+                    }
+                    ctx.add(&ctx.nontrivial, 1);
+                },
+            }
+        }
+        for (choice, alg) in [(CipherChoice::ChaChaPoly, CipherAlg::ChaChaPoly), (CipherChoice::AESGCM, CipherAlg::AesGcm), (CipherChoice::XChaChaPoly, CipherAlg::XChaChaPoly)] {
+            ctx.add(&ctx.evaluations, 1);
+            let documented = !is_ring || alg != CipherAlg::XChaChaPoly;
+            match (r.resolve_cipher(&choice), documented) {
+                (None, false) => {},
+                (None, true) => bad(format!("no cipher for {choice:?}")),
+                (Some(_), false) => bad(format!("a cipher for {choice:?}")),
+                (Some(mut c), true) => {
+                    let key = [0x42u8; 32];
+                    c.set(&key);
+                    let mut out = vec![0u8; 64];
+                    let n = c.encrypt(0x0102_0304_0506_0708, b"ad", b"built-in table", &mut out);
+                    let want = alg.encrypt(&key, 0x0102_0304_0506_0708, b"ad", b"built-in table");
+                    if c.name() != alg.name() || out[..n] != want[..] {
+                        bad(format!("the cipher object for {choice:?} is named {:?} and does not compute {}", c.name(), alg.name()));
+                    }
+                    ctx.add(&ctx.nontrivial, 1);
+                },
+            }
+        }
+        ctx.add(&ctx.evaluations, 1);
+        if r.resolve_rng().is_none() {
+            bad("no random source".to_string());
+        }
+    }
+    ctx.count("builtin_resolver_table_entries", 22);
+}
+
 fn dh_idx(c: &DHChoice) -> u8 {
     match c {
         DHChoice::Curve25519 => 0,
@@ -356,8 +434,9 @@ pub fn run(tier: Tier) -> i32 {
     // the whole thorough product costs ~10 s: both tiers run it
     let quick = false;
     let _ = ctx.quick();
-    ctx.set_rule("wire part: every protocol name both backends serve (25519 x {ChaChaPoly, AESGCM} x {SHA256, SHA512}; BLAKE2 / XChaChaPoly / P256 names through the fallback) x all 9 assignments of {Default, Fallback(Ring, Default), Fallback(Default, Ring)} to the two endpoints, session = handshake + transport traffic + synchronised rekeys + more traffic, stateful and stateless, with comfortably large buffers and (every 4th name) with output buffers of exactly the needed size plus {0,1,8,15,16,17} bytes: identical bytes to the all-default session and every step Ok. fallback part: complete truth table of FallbackResolver over tagged stub resolvers (16 x 16 availability masks, nesting depth 2 on either side): Some iff a member provides the primitive, and the first member's; plus every sequence of three queries of one kind on the same instance over per-choice availability masks (the answer must not depend on earlier queries)");
+    ctx.set_rule("wire part: every protocol name both backends serve (25519 x {ChaChaPoly, AESGCM} x {SHA256, SHA512}; BLAKE2 / XChaChaPoly / P256 names through the fallback) x all 9 assignments of {Default, Fallback(Ring, Default), Fallback(Default, Ring)} to the two endpoints, session = handshake + transport traffic + synchronised rekeys + more traffic, stateful and stateless, with comfortably large buffers and (every 4th name) with output buffers of exactly the needed size plus {0,1,8,15,16,17} bytes: identical bytes to the all-default session and every step Ok. built-in part: DefaultResolver and RingResolver answer Some exactly for their documented primitives and what they hand out is the named primitive (name + one known answer against the reference). fallback part: complete truth table of FallbackResolver over tagged stub resolvers (16 x 16 availability masks, nesting depth 2 on either side): Some iff a member provides the primitive, and the first member's; plus every sequence of three queries of one kind on the same instance over per-choice availability masks (the answer must not depend on earlier queries)");
     fallback_table(&ctx);
+    builtin_table(&ctx);
     let mut names: Vec<Proto> = vec![];
     for c in [CipherAlg::ChaChaPoly, CipherAlg::AesGcm] {
         for h in [HashAlg::Sha256, HashAlg::Sha512] {
@@ -402,6 +481,14 @@ pub fn run(tier: Tier) -> i32 {
 }
 
 pub fn replay(case: &serde_json::Value) -> Result<(), String> {
+    if case["kind"] == "builtin" {
+        let ctx = Ctx::new("C20", Tier::Quick, "model_checking");
+        builtin_table(&ctx);
+        return match ctx.violations.lock().unwrap().first() {
+            Some(v) => Err(format!("{}: {}", v.signature, v.detail)),
+            None => Ok(()),
+        };
+    }
     if case["kind"] == "fallback" {
         // re-run the whole (tiny) table
         let ctx = Ctx::new("C20", Tier::Quick, "model_checking");
